@@ -14,7 +14,7 @@ CONSTANTS B = 4
   NOTDEF_OWN = TRUE
   Mode = "map"
   SpaceNames = {"s1", "s2", "mix", "mixw"}
-  FamNames = {"cid", "tu1", "tuEdge", "tuMix"}
+  FamNames = {"cid", "tu1", "tuEdge", "tuMix", "tuPrefix"}
   ChainSpaces = {"s1"}
   MaxTop <- TopFour
   MaxTotal = 3
